@@ -10,7 +10,14 @@ unsigned int if_nametoindex(const char *name) { (void)name; return 0; }
 #include "evbuf_copy.h"   /* byte-loop memcpy/memmove/memcmp (symbolic sizes in pton's gap expansion) */
 #ifdef VP_CBMC
 static void *vp_memset_b(void *d, int c, size_t n) { size_t i; for (i = 0; i < n; i++) ((unsigned char *)d)[i] = (unsigned char)c; return d; }
-#define memset(d, c, n) vp_memset_b((d), (c), (n))
+/* byte loops only where the size is symbolic (pton's gap expansion); constant-size copies of structs keep
+ * cbmc's typed built-ins (a byte loop over a 128-byte sockaddr_storage is 128 nested byte updates) */
+#undef memset
+#undef memcpy
+#undef memmove
+#define memset(d, c, n) (__builtin_constant_p(n) ? (memset)((d), (c), (n)) : vp_memset_b((d), (c), (n)))
+#define memcpy(d, s, n) (__builtin_constant_p(n) ? (memcpy)((d), (s), (n)) : vp_memcpy((d), (s), (n)))
+#define memmove(d, s, n) (__builtin_constant_p(n) ? (memmove)((d), (s), (n)) : vp_memmove((d), (s), (n)))
 #endif
 #include "evutil.c"
 #include "strlcpy.c"
@@ -138,7 +145,13 @@ void harness_sockaddr_roundtrip(void)
 {
 	struct sockaddr_storage ss, back; char text[64]; const char *r; int outlen = sizeof(back), pr;
 	memset(&ss, 0, sizeof(ss)); memset(&back, 0, sizeof(back));
+#ifdef VP_RT_V4
+	if (1) {
+#elif defined(VP_RT_V6)
+	if (0) {
+#else
 	if (vp_bool()) {
+#endif
 		struct sockaddr_in *s = (struct sockaddr_in *)&ss;
 		s->sin_family = AF_INET; s->sin_port = vp_u16(); s->sin_addr.s_addr = vp_u32();
 		__CPROVER_assume(s->sin_port != 0);
@@ -160,4 +173,31 @@ void harness_sockaddr_roundtrip(void)
 		VP_ASSERT(outlen == sizeof(*x) && y->sin6_family == AF_INET6 && y->sin6_port == x->sin6_port && memcmp(&y->sin6_addr, &x->sin6_addr, 16) == 0, "C40: IPv6 [address]:port does not round-trip through format/parse");
 		VP_WITNESS("v6 round trip");
 	}
+}
+
+/* every non-zero port survives the textual form (the full format->parse round trip over all addresses is the
+ * thorough obligation sockaddr_roundtrip; this one isolates the port field and is cheap enough for every run) */
+#ifndef VP_NDIG
+#define VP_NDIG 5
+#endif
+void harness_parse_port(void)
+{
+	char text[32]; struct sockaddr_storage back; int outlen = sizeof(back), pr, n = 0, k; unsigned port = 0;
+#ifdef VP_RT_V6
+	const char *pre = "[::1]:"; const int v6 = 1;
+#else
+	const char *pre = "10.2.3.4:"; const int v6 = 0;
+#endif
+	for (k = 0; pre[k]; k++) text[n++] = pre[k];
+	for (k = 0; k < VP_NDIG; k++) { unsigned d = (unsigned)vp_range(k == 0 ? 1 : 0, 9); text[n++] = (char)('0' + d); port = port * 10 + d; }   /* number of digits is structural */
+	text[n] = 0;
+	__CPROVER_assume(port >= 1 && port <= 65535);
+	memset(&back, 0, sizeof(back));
+	pr = evutil_parse_sockaddr_port(text, (struct sockaddr *)&back, &outlen);
+	VP_ASSERT(pr == 0, "C40: evutil_parse_sockaddr_port rejects an address with a valid non-zero port");
+	if (v6) { VP_ASSERT(((struct sockaddr_in6 *)&back)->sin6_port == htons((unsigned short)port), "C40: parsed IPv6 port differs from the text"); VP_WITNESS("v6 port"); }
+	else { VP_ASSERT(((struct sockaddr_in *)&back)->sin_port == htons((unsigned short)port) && ((struct sockaddr_in *)&back)->sin_addr.s_addr == htonl(0x0a020304), "C40: parsed IPv4 address/port differs from the text"); VP_WITNESS("v4 port"); }
+#if VP_NDIG == 5
+	if (port == 65535) VP_WITNESS("largest port");
+#endif
 }
